@@ -17,6 +17,7 @@ TRUSTED = ["numpy floor/argsort(kind=stable)", "fractions.Fraction"]
 ASSUMPTIONS = ["data finite; bin size > 0; limits always include at least one datum",
                "data whose IEEE and exact-rational bin index differ make the call's count comparison skipped"]
 THOROUGH_ROUNDS = 3      # the thorough tier runs the generator over this many derived seeds
+CASE_TIMEOUT = 600
 REQUIRED = {"quick": {"C05.hist": 1500, "C05.engines": 400, "C05.binner": 400},
             "thorough": {"C05.hist": 30000, "C05.engines": 8000, "C05.binner": 8000}}
 
@@ -29,7 +30,7 @@ def cases(seed, tier):
     for i in range(n):
         yield {"family": FAMILIES[i % len(FAMILIES)], "sub": int(rng.integers(0, 2**31))}
     for i in range(1 if tier == "quick" else 6):
-        yield {"family": "big", "sub": int(rng.integers(0, 2**31)), "first": i == 0, "cap": 2 ** 22 + 5 if tier == "quick" else None}
+        yield {"family": "big", "sub": int(rng.integers(0, 2**31)), "first": i == 0, "cap": 2 ** 22 + 5 if tier == "quick" else 5 * 10 ** 6 + 3}
 
 
 def make(case):
